@@ -116,12 +116,13 @@ def main(argv):
     if only:
         import re
         hs = [h for h in hs if re.search(only, h.name)]
-    if not hs:
+    engine_b_only = only == "engineB"  # development aid: skip Engine A
+    if not hs and not engine_b_only:
         print(f"no harness registered for {prop}")
         return 2
-    res, wall = runner.run_engine_a(prop, tier, seed, hs)
+    res, wall = runner.run_engine_a(prop, tier, seed, hs) if hs else ({}, 0.0)
     extra_cov, extra_viol, extra_inc, extra_assume = {}, [], [], []
-    if prop in ENGINE_B_PROPS and not only:
+    if prop in ENGINE_B_PROPS and (not only or engine_b_only):
         extra_cov, extra_viol, extra_inc, extra_assume = engine_b_part(prop, tier)
     if prop in ("C18", "C19") and not only:
         extra_cov, extra_inc, extra_assume = serde_tv(extra_cov, extra_inc, extra_assume)
